@@ -60,7 +60,7 @@ def step (st : Unit) (j : Json) : Unit × List String :=
       let didOf := fun (kid : String) => (kid.splitOn "#").headD ""
       authzV1 Facts.C17.supportedAlgs Facts.C17.authzV1ChecksKidIssuer E (jStr j "issuer") (jBool v "issparses") didOf info
     | "introspect" =>
-      let E : Env := { fits := fun _ _ => jBool v "fits", resolve := fun _ => if jBool v "keyfound" && jBool v "ownkey" then some "K" else none, embeddedKey := fun _ => none,
+      let E : Env := { fits := fun _ _ => jBool v "fits", resolve := fun _ => if jBool v "keyfound" && jBool v "ownkey" && !jBool v "storefault" then some "K" else none, embeddedKey := fun _ => none,
                        verifies := fun _ _ _ => jBool v "verified", verifiesSplit := fun _ _ _ => false }
       parseJWT Facts.C17.supportedAlgs E info
     | "ldproof" =>
